@@ -123,6 +123,16 @@ def run_case(case):
         neval += 2
         if g1.shape != (len(xs),) or not np.allclose(g1, g2, rtol=1e-12):
             bad("cdf_input_forms", {"array": g1, "list": g2})
+    # ---------------- 3-D: marginal pdf of a conditional dimension (the argument re-ordering differs per dimension)
+    for dim in case.get("marginal_pdf_dims", []):
+        xv = float(np.quantile(S[:, dim], 0.6))
+        mp = float(np.asarray(model.marginal_pdf(np.array([xv]), dim), dtype=float)[0])
+        neval += 1
+        a, b = refquad.integrate(model.pdf, edges, k=kk, fixed={dim: xv})
+        if abs(a - b) > 1e-6 * max(1.0, abs(b)):
+            inc("oracle_inconclusive")
+        elif abs(mp - b) > 1e-5 * max(1.0, abs(b)):
+            bad("marginal_pdf_not_integral", {"dim": dim, "x": xv, "marginal_pdf": mp, "cubature": b}, conditional=True)
     # ---------------- marginals
     for dim in case.get("marginal_dims", []):
         xq = np.quantile(S[:, dim], case.get("marginal_qs", [0.1, 0.6, 0.97]))
@@ -207,6 +217,9 @@ def main(ctx):
                 c["cdf_points"] = [[0.5, 0.6, 0.4]] if si in (1, 3, 5) else []
             if q and ti > 0:
                 c["total"] = si % 2 == 0
+            if ti == 0 or not q:
+                # every conditional dimension of every structure (quick: first family triple)
+                c["marginal_pdf_dims"] = [d for d in range(3) if cond[d] is not None and d not in c.get("marginal_dims", [])]
             cases.append(c)
     for c in cases:
         ctx.axis("n_dim", len(c["fams"]))
